@@ -321,6 +321,16 @@ func C07LabelSet(root *ref.RouteNode) *rapid.Generator[map[string]string] {
 		if c07Chance(t, 3, "extraLabel") {
 			ls["d"] = rapid.SampledFrom(UniValues).Draw(t, "dv")
 		}
+		// a label value with a line feed in it (legal; "." does not match it, so =~".+" and =~".*" do not hold)
+		if len(ls) > 0 && c07Chance(t, 6, "newlineValue") {
+			names := make([]string, 0, len(ls))
+			for n := range ls {
+				names = append(names, n)
+			}
+			sort.Strings(names)
+			n := names[rapid.IntRange(0, len(names)-1).Draw(t, "nlName")]
+			ls[n] = ls[n] + "\n" + rapid.SampledFrom(UniValues).Draw(t, "nlTail")
+		}
 		if len(ls) == 0 {
 			// an alert needs at least one label
 			ls[rapid.SampledFrom(UniNames).Draw(t, "fillName")] = rapid.SampledFrom(UniValues).Draw(t, "fillValue")
